@@ -346,7 +346,10 @@ def run(chk):
     else:
         behs = generate(chk, 3)
         chk.count("behaviours steps<=3 (exhaustive)", len(behs))
-        sim = generate(chk, 7, simulate=8000)      # (num is per TLC worker: x16 behaviours)
+        chk.exhaustive = False
+        sim = generate(chk, 7, simulate=4000)      # (num is per TLC worker: x16 behaviours)
+        rng.shuffle(sim)
+        sim = sim[:80000]                           # memory: every worker process inherits the list
         chk.count("behaviours steps<=7 (simulated)", len(sim))
         behs += sim
     tb = []
